@@ -160,16 +160,20 @@ func loadProgram(repoDir, harnessDir string, patterns []string) (*loaded, error)
 
 func newInterp(l *loaded, ex *Explorer) *Interp {
 	it := &Interp{
-		prog:       l.prog,
-		ex:         ex,
-		globals:    map[*ssa.Global]*Value{},
-		pkgInit:    map[*ssa.Package]string{},
-		sizes:      types.SizesFor("gc", "amd64"),
-		funcsRepo:  map[string]int{},
-		funcsStd:   map[string]int{},
-		modelsUsed: map[string]int{},
-		repoPrefix: "cuelabs.dev/go/oci",
-		mstate:     &modelState{assumptions: map[string]bool{}, perPath: map[string]interface{}{}},
+		prog:          l.prog,
+		ex:            ex,
+		globals:       map[*ssa.Global]*Value{},
+		pkgInit:       map[*ssa.Package]string{},
+		sizes:         types.SizesFor("gc", "amd64"),
+		funcsRepo:     map[string]int{},
+		funcsStd:      map[string]int{},
+		modelsUsed:    map[string]int{},
+		repoPrefix:    "cuelabs.dev/go/oci",
+		noMerge:       map[*ssa.If]bool{},
+		mergeCache:    map[*ssa.Function]*mergeInfo{},
+		condPureCache: map[*ssa.BasicBlock]bool{},
+		pureFnCache:   map[*ssa.Function]bool{},
+		mstate:        &modelState{assumptions: map[string]bool{}, perPath: map[string]interface{}{}},
 	}
 	ex.it = it
 	return it
